@@ -11,7 +11,8 @@
         final(self).empty_service_set == old(self).empty_service_set, final(self).instance_metadate_set == old(self).instance_metadate_set,
         final(self).sys_config == old(self).sys_config,
 @@ NamingActor::remove_client_instance_key spec
-    ensures final(self).service_map == old(self).service_map,
+    ensures final(self).service_map == old(self).service_map, final(self).sys_config == old(self).sys_config,
+        final(self).empty_service_set == old(self).empty_service_set, final(self).instance_metadate_set == old(self).instance_metadate_set,
         final(self).client_instance_set@.dom() == old(self).client_instance_set@.dom(),
         forall|c: Arc<String>| #[trigger] final(self).client_instance_set@.contains_key(c) ==>
             final(self).client_instance_set@[c]@ == (if c == *client_id { old(self).client_instance_set@[c]@.remove(*key) } else { old(self).client_instance_set@[c]@ }),
@@ -37,6 +38,7 @@
                     && s0.instances@[*instance_id].client_id@ != client_id.unwrap()@)))
             &&& (r.1 is Remove <==> (r.0 is Remove && !s0.instances@[*instance_id].ephemeral))
         }),
+        final(self).sys_config == old(self).sys_config, final(self).client_instance_set@.dom() == old(self).client_instance_set@.dom(),
         // C11 reverse map: the key of a removed instance leaves the record of the client that OWNED it (whoever asked for the removal);
         // nothing else in the reverse map changes
         forall|c: Arc<String>, k: InstanceKey| #[trigger] final(self).records(c, k) <==> (old(self).records(c, k)   // @C11 @C12
@@ -130,3 +132,54 @@
         proof {
             assert(self.client_instance_set@ == cis1);
         }
+@@ InstanceKey::get_service_key spec
+    ensures r == skey(*self)
+@@ InstanceKey::get_short_key spec
+    ensures r == shkey(*self)
+@@ NamingActor::remove_client_instance t8o 1
+@@ NamingActor::remove_client_instance foriter 1 it
+@@ NamingActor::remove_client_instance spec
+    requires old(self).services_wf(), old(self).timeouts_small(), client_id@.len() > 0
+    ensures final(self).services_wf(),   // @C11
+        // C12: the end of a connection removes no persistent instance and no instance of another client ...
+        forall|k: InstanceKey| #[trigger] old(self).has(k) && (!old(self).at(k).ephemeral || old(self).at(k).client_id@ != client_id@)   // @C12
+            ==> final(self).has(k) && final(self).at(k) == old(self).at(k),
+        // ... and removes every ephemeral instance of this client that the connection's record names
+        forall|k: InstanceKey| #[trigger] old(self).records(*client_id, k) && old(self).has(k) && old(self).at(k).ephemeral && old(self).at(k).client_id@ == client_id@   // @C12
+            ==> !final(self).has(k),
+        // nothing appears
+        forall|k: InstanceKey| #[trigger] final(self).has(k) ==> old(self).has(k) && final(self).at(k) == old(self).at(k),   // @C11 @C12
+        !final(self).client_instance_set@.contains_key(*client_id),   // @C11
+@@ NamingActor::remove_client_instance entry
+    broadcast use group_std_extra;
+    broadcast use vstd::std_specs::hash::group_hash_axioms;
+    broadcast use axiom_naming_key_model;
+    let ghost a0 = *self;
+    let ghost cid = *client_id;
+@@ NamingActor::remove_client_instance loop 1
+    invariant self.services_wf(), self.timeouts_small(), cid == *client_id, cid@.len() > 0,
+        it.seq().unref().to_set() == keys@,
+        !self.client_instance_set@.contains_key(cid),
+        forall|k: InstanceKey| #[trigger] a0.has(k) && (!a0.at(k).ephemeral || a0.at(k).client_id@ != cid@) ==> self.has(k) && self.at(k) == a0.at(k),
+        forall|k: InstanceKey| #[trigger] self.has(k) ==> a0.has(k) && self.at(k) == a0.at(k),
+        forall|j: int| 0 <= j < it.index@ ==> (a0.has(*(#[trigger] it.seq()[j])) && a0.at(*it.seq()[j]).ephemeral && a0.at(*it.seq()[j]).client_id@ == cid@ ==> !self.has(*it.seq()[j])),
+@@ NamingActor::remove_client_instance loop 1 body_entry
+    let ghost s1 = *self;
+    let ghost kk = *instance_key;
+    proof { assert(*it.seq()[it.index@] == kk); }
+@@ NamingActor::remove_client_instance loop 1 body_exit
+    proof {
+        assert forall|k: InstanceKey| #[trigger] self.has(k) implies s1.has(k) && self.at(k) == s1.at(k) by {
+            if skey(k) == skey(kk) { } else { }
+        }
+        assert forall|k: InstanceKey| #[trigger] s1.has(k) && k != kk implies self.has(k) && self.at(k) == s1.at(k) by {
+            if skey(k) == skey(kk) { assert(shkey(k) != shkey(kk)); } else { }
+        }
+    }
+@@ NamingActor::get_instance spec
+    ensures r == (if self.service_map@.contains_key(*key) && self.service_map@[*key].instances@.contains_key(*instance_id)
+                  { Some(self.service_map@[*key].instances@[*instance_id]) } else { None::<Arc<Instance>> })
+@@ NamingActor::get_instance entry
+    broadcast use group_std_extra;
+    broadcast use vstd::std_specs::hash::group_hash_axioms;
+    broadcast use axiom_naming_key_model;
